@@ -25,7 +25,9 @@ class FakeVCS:
 
     def env(self, fail=None, fail_n=1, extra=None):
         e = {"PATH": BIN + os.pathsep + "/usr/bin:/bin", "FAKEVCS_LOG": self.log, "FAKEVCS_DIR": self.dir,
-             "FAKEVCS_BIN": BIN, "FAKEVCS_FAIL": fail or "", "FAKEVCS_FAIL_N": str(fail_n)}
+             "FAKEVCS_BIN": BIN, "FAKEVCS_FAIL": fail or "", "FAKEVCS_FAIL_N": str(fail_n),
+             # stale values, as left behind by an enclosing bumpver run or an `export`: hooks must see this update's versions
+             "BUMPVER_OLD_VERSION": "0.0.0-stale", "BUMPVER_NEW_VERSION": "0.0.1-stale"}
         if extra:
             e.update(extra)
         return e
